@@ -65,9 +65,9 @@ def analyse(F, s, classes, stores=None):
             del ts.buffers[f]
     # evaluate every hand-written method of the struct (modular)
     for fn in F.fns_of(s):
-        if fn.derived or fn.is_ctor or (fn.name == "default" and fn.trait_short == "Default") \
-                or (fn.name == "fmt" and fn.trait_short in ("Display", "Debug")):
-            continue
+        if fn.derived or fn.is_ctor or (fn.name == "default" and fn.impl_trait in ("std::default::Default", "core::default::Default")) \
+                or (fn.name == "fmt" and (fn.impl_trait or "").split("::")[0] in ("std", "core") and fn.trait_short in ("Display", "Debug")):
+            continue   # (std's Default / Display / Debug only: a crate trait that merely carries such a name is an ordinary method)
         if fn.path in F.helpers():
             continue  # context-bound helper: its writes are part of its callers' post-terms (inlined)
         try:
